@@ -15,6 +15,7 @@ type wsconcG struct {
 	id   int
 	raw  bool
 	max  int
+	bump bool // the script raises the maximum on the live stream (setmax): no frame above the original maximum is sent
 	frag bool // the peer is inside a fragmented message
 }
 
@@ -41,7 +42,7 @@ func (g *wsconcG) wlen() int {
 		}
 		return 17
 	case 7:
-		if g.r.intn(3) == 0 {
+		if g.r.intn(3) == 0 && !g.bump {
 			return g.max + 1
 		}
 		return 2
@@ -159,6 +160,10 @@ func wsconcGen(r *rng, maxops int, w *bufio.Writer) {
 	g := &wsconcG{r: r, w: w}
 	g.raw = r.intn(4) != 0
 	g.max = r.pick(524288, 524288, 524288, 1000)
+	g.bump = r.intn(3) == 0
+	if g.bump {
+		g.max = 524288 // (no size the generator draws exceeds it, whichever side sends)
+	}
 	mode := "conn"
 	snd, rcv := 0, 0
 	if g.raw {
@@ -180,6 +185,9 @@ func wsconcGen(r *rng, maxops int, w *bufio.Writer) {
 		case 4, 5, 6:
 			fmt.Fprintf(w, "! %s\n", g.peerAction())
 		default:
+			if g.bump && r.intn(3) == 0 {
+				fmt.Fprintf(w, "! setmax\n")
+			}
 			fmt.Fprintf(w, "! poll\n")
 		}
 	}
